@@ -254,7 +254,8 @@ func DownloadHandler(w io.Writer, fullPath string, fileTransfer *FileTransfer, f
 		dataOffset = int64(binary.BigEndian.Uint32(fileTransfer.FileResumeData.ForkInfoList[0].DataSize[:]))
 	}
 
-	fw, err := NewFileWrapper(fs, fullPath, 0)
+	// The data fork header must announce the bytes that follow, i.e. the data remaining after the resume offset.
+	fw, err := NewFileWrapper(fs, fullPath, dataOffset)
 	if err != nil {
 		return fmt.Errorf("reading file header: %v", err)
 	}
